@@ -1,14 +1,28 @@
 """C01 - events take effect in time order, urgent first, then in trigger order."""
-from harness import kprops, koracle
+import json
+from harness import kprops, koracle, klong
 
 ASSUMPTIONS = [
     'delays are finite non-NaN numbers; Environment.schedule/Event.trigger are not called directly by user code',
     'time is exact rational in the theorems; the executable model runs at IEEE double and is compared bit for bit',
     'heapq.heappop returns a minimum of the queued tuples (library)',
+    'long-run probes (more than 2**20 scheduled occurrences before the coincidences) are judged by the direct oracle only; the model is not run on them',
 ]
 
-SPEC = [(5, 'time'), (2, 'intr'), (1, 'outcome'), (1, 'cond'), (2, 'plan:time')]
+SPEC = [(5, 'time'), (2, 'intr'), (1, 'victim'), (1, 'outcome'), (1, 'cond'), (2, 'plan:time')]
 
 
 def run(ctx):
-    return kprops.run_kernel(ctx, 'C01', SPEC, 2000, 60000, oracles=[kprops.oracle_time_monotone, koracle.oracle_c01])
+    if ctx.replay:
+        j = json.load(open(ctx.replay))
+        if isinstance(j.get('case'), dict) and j['case'].get('probe') == 'long-run':
+            fails, cov = klong.run_probe(j['case'])
+            return {'coverage': {'evaluations': 1, 'distinct_nontrivial': 1, 'rule': 'replayed long-run probe', 'samples': [j['case']],
+                                 'long_run_probes': [cov]}, 'disagreements': [], 'oracle_failures': fails}
+    res = kprops.run_kernel(ctx, 'C01', SPEC, 2000, 60000, oracles=[kprops.oracle_time_monotone, koracle.oracle_c01])
+    if not ctx.replay:
+        # oracle-only cases, counted separately: coincidences of old / recent ordinary and urgent occurrences late in a long run
+        fails, cov = klong.probes(ctx)
+        res['oracle_failures'] += fails
+        res['coverage']['long_run_probes'] = cov
+    return res
